@@ -23,6 +23,14 @@ CLAIMS = {
          "of the solver constructor. No bound on inputs or histories; loops by contract / arbitrary-iteration slice."),
    design='6 C04', technique='contract-based deductive verification: own VC generator over the clang AST (heap model, callee contracts, loop-body contracts) + SMT',
    note=NOTE_COMMON + " log/exp uninterpreted; std::remove_if/erase by the standard's specification; two callee frames assumed here and proved under C12."),
+ 'C07': dict(
+   text=("Contract on the real per-pair contact rule of the shipped contact model (node-node coupling), all nodes, faces, cell types and strengths "
+         "symbolic, kernel through its C05 contract: action = reaction on the four nodes and nothing else written, forces only below the "
+         "cut-off and only on the forbidden side (with the ECM / nucleus reversals), node force directed at the closest surface point and "
+         "reaction distributed by the barycentric weights, couplings only between epithelial cells within the adhesion cut-off; and the reset "
+         "of all couplings at the start of every contact phase (loop-body contract)."),
+   design='6 C07', technique='contract-based deductive verification: VC generation over the clang AST with callee contracts and a typed heap model + SMT',
+   note=NOTE_COMMON + " Contact models 0 and 2 (other compile-time configurations) are named as unverified; several invariants of other properties are preconditions."),
  'C20': dict(
    text=("Contracts on the real grid templates as instantiated by the repository: update_dimensions (every point of the declared box, as a free "
          "variable, is indexable and maps to an existing voxel; voxel count without 32-bit wrap; grid emptied), index functions (formula, range, "
